@@ -120,7 +120,7 @@ pub fn gen_model(rng: &mut Rng, size: usize, with_range: bool) -> Value {
             3 => {
                 // a column delta from every VLQ digit-count class; columns stay below 2^29
                 let d = 1 + vlq_class(rng, 6);
-                if col + d >= (1 << 29) { line += 1; col = d.min((1 << 29) - 1); } else { col += d; }
+                if col + d >= (1 << 28) { line += 1; col = d.min((1 << 28) - 1); } else { col += d; }
             }
             _ => { col += rng.range(1, 30); }
         }
